@@ -216,7 +216,14 @@ def configure(devices, clock='rec', output='rec', overrides=None,
     """
     simnet.SimLan.devices = list(devices)
     injection.configure()
-    conf = dict(BASE_SETTINGS)
+    # the way the front ends build their settings: the repository's functional
+    # defaults first (whatever keys they have at the time), then -- like the
+    # project's own test configuration -- a key nothing reads
+    # (`matrix_init_color`), then what this harness needs
+    from bardolph.controller import config_values
+    conf = dict(config_values.functional)
+    conf['matrix_init_color'] = [4, 3, 2, 1]
+    conf.update(BASE_SETTINGS)
     if overrides:
         conf.update(overrides)
     settings.using(conf).configure()
